@@ -2238,6 +2238,17 @@ func (p *Parser) peekRune() rune {
 	return r
 }
 
+// peekComment returns true if the next two runes that would be read by the
+// scanner start a comment.
+func (p *Parser) peekComment() bool {
+	r := p.s.s.r
+	ch0, _ := r.read()
+	ch1, _ := r.read()
+	r.unread()
+	r.unread()
+	return (ch0 == '/' && ch1 == '*') || (ch0 == '-' && ch1 == '-')
+}
+
 func (p *Parser) parseSource(subqueries bool) (Source, error) {
 	m := &Measurement{}
 
@@ -2844,9 +2855,27 @@ func (p *Parser) parseUnaryExpr() (Expr, error) {
 
 // parseRegex parses a regular expression.
 func (p *Parser) parseRegex() (*RegexLiteral, error) {
+	// The look-ahead below reads runes behind the token stream. If a token is
+	// still pushed back, that token comes next and it is not a regex.
+	if p.s.n > 0 {
+		return nil, nil
+	}
+
 	nextRune := p.peekRune()
 	if isWhitespace(nextRune) {
 		p.consumeWhitespace()
+	}
+
+	// A comment is equivalent to whitespace: skip any that stand in front of a
+	// possible regex, otherwise the '/' of "/*" would be taken for its start.
+	for p.peekComment() {
+		if tok, _, _ := p.Scan(); tok != COMMENT {
+			p.Unscan()
+			return nil, nil
+		}
+		if isWhitespace(p.peekRune()) {
+			p.consumeWhitespace()
+		}
 	}
 
 	// If the next character is not a '/', then return nils.
